@@ -171,7 +171,14 @@ def make_interface(prop):
         pr = r.get("parent_roots_after_derive", {}).get(step) or r.get("parent_roots_after_derive", {}).get(str(step)) or []
         parent_acc = "n/a" if not sig[1].startswith("O2-") else classify([x["err"] for x in pr])
         involved = "wrong-factor" if "wrong" in (acc, parent_acc) else ("yes" if "approximate" in (acc, parent_acc) else "no")
+        reader = sig[3].split("[")[0]
+        if sig[1].startswith("O2-"):
+            reader = sig[2].split(".")[-1] + ">" + reader  # e.g. cat_rows>root_decomposition
+        elif sig[1].startswith("derive"):
+            reader = "derive:" + sig[3]
+        pairs = sorted({f"{reader}<-{c['name'].split('(')[0]}" for c in culprits}) or [f"{reader}<-none"]
         return {"culprits": sorted({f"{c['obj']}{c['path']}:{c['name']}" for c in culprits}),
+                "reader_pairs": pairs,
                 "parent_root_accuracy": parent_acc,
                 "parent_root_errors": [x["err"] for x in pr],
                 "approximate_factor_involved": involved,
